@@ -5,6 +5,8 @@ package network
 // alphabets, bounds and oracles (verif_c43_a_slurper_test.go, verif_c43_b_peer_test.go, verif_c43_c_filter_test.go).
 
 import (
+	"encoding/json"
+	"strings"
 	"testing"
 	"time"
 
@@ -15,19 +17,43 @@ func TestVerif_C43(t *testing.T) {
 	r := ve.NewRun("C43", "model_checking")
 	var cov ve.Coverage
 	cov.Exhaustive = true
-	st, tr := c43PartA(r)
-	cov.States += st
-	cov.Transitions += tr
-	ea := r.Evals()
-	r.Set("a_evaluations", ea)
-	tb := time.Now()
-	c43PartB(r)
-	r.Set("wall_b_s", int(time.Since(tb).Seconds()))
-	tc := time.Now()
-	defer func() { r.Set("wall_c_s", int(time.Since(tc).Seconds())) }()
-	r.Set("b_evaluations", r.Evals()-ea)
+	// --replay: violations of part a carry the complete case (re-run part a), of part b the case name,
+	// of part c the op sequence (handled by the E-SEQ engine); a replay file of the E-SCHED part is not ours.
+	runA, runB, runC, onlyB := true, true, true, ""
+	if raw := r.ReplayRequest(); raw != nil {
+		var req struct {
+			Engine string          `json:"engine"`
+			Part   string          `json:"part"`
+			Case   json.RawMessage `json:"case"`
+		}
+		_ = json.Unmarshal(raw, &req)
+		runA = req.Engine == "enum" && strings.HasPrefix(req.Part, "a")
+		runB = req.Engine == "enum" && req.Part == "b"
+		runC = req.Engine == "seq"
+		if runB {
+			_ = json.Unmarshal(req.Case, &onlyB)
+		}
+	}
+	var ea int64
+	if runA {
+		st, tr := c43PartA(r)
+		cov.States += st
+		cov.Transitions += tr
+		ea = r.Evals()
+		r.Set("a_evaluations", ea)
+	}
+	if runB {
+		tb := time.Now()
+		c43PartB(r, onlyB)
+		r.Set("wall_b_s", float64(int(time.Since(tb).Seconds()*10))/10)
+		r.Set("b_evaluations", r.Evals()-ea)
+	}
 	cov.Traces += r.Evals()
-	c43PartCSeq(r, &cov)
+	if runC {
+		tc := time.Now()
+		c43PartCSeq(r, &cov)
+		r.Set("wall_c_s", float64(int(time.Since(tc).Seconds()*10))/10)
+	}
 	cov.Rule = "E-ENUM: LimitedReaderSlurper x every composition/fault of messages 0..max+3 (4 configs) + Reset from every distinct reached state; " +
 		"wsPeer.readLoop x every tag x {limit-1,limit,limit+1} x boundary chunkings, zstd proposals {limit-1,limit,limit+1,4*limit}, vpack votes, all tag pairs; " +
 		"E-SEQ: 2 peers x 3 msgs x 3 tags, all sequences <= 6 through two real read loops sharing a 2x2 messageFilter"
